@@ -12,7 +12,7 @@ All times are minutes on the lattice of h_slot (T0 = base date).
 """
 import logging
 import math
-from datetime import timedelta
+from datetime import datetime, timedelta
 
 import numpy as np
 
@@ -280,22 +280,19 @@ class tick_of:
         self.spec = spec
 
     def __enter__(self):
-        self.old = hs.TICK[0]
+        self.old = hs.TICK[0], hs.EPOCH[0]
         hs.TICK[0] = timedelta(microseconds=self.spec["tick_us"]) if self.spec.get("tick_us") else timedelta(minutes=1)
+        hs.EPOCH[0] = datetime(*self.spec["t0"]) if self.spec.get("t0") else hs.T0
 
     def __exit__(self, *a):
-        hs.TICK[0] = self.old
+        hs.TICK[0], hs.EPOCH[0] = self.old
 
 
 def run(spec, mem_loc=None):
     """-> (outcome, message, trace, built). outcome = 'ok' or exception class name.
     spec["tick_us"] (optional) = length of one lattice tick in microseconds (default one minute)."""
-    old = hs.TICK[0]
-    hs.TICK[0] = timedelta(microseconds=spec["tick_us"]) if spec.get("tick_us") else timedelta(minutes=1)
-    try:
+    with tick_of(spec):  # spec["tick_us"], spec["t0"] (optional): length of a tick, date of tick 0
         return _run(spec, mem_loc)
-    finally:
-        hs.TICK[0] = old
 
 
 def _run(spec, mem_loc=None):
